@@ -120,7 +120,13 @@ template<uint32_t KIND, bool A_FIRST, uint32_t CNT> static void replay_two_nodes
     case 2: B = new(Support::PlacementNew{&st_elabel.v}) EmbedLabelNode(x, y); break;
     case 3: B = new(Support::PlacementNew{&st_edelta.v}) EmbedLabelDeltaNode(x, y, z); break;
     case 4: B = new(Support::PlacementNew{&st_comment.v}) CommentNode(text); break;
-    default: { EmbedDataNode* d = new(Support::PlacementNew{&st_edata.v.n}) EmbedDataNode(TypeId::kUInt8, 1, 4, (y & 3) + 1); memcpy(d->data(), blob, 4); B = d; break; }
+    default: {   // typed data: item size 1, 2 or 4 (the destination must get the ITEM count, not the byte count)
+      EmbedDataNode* d;
+      if ((z & 3) == 0) d = new(Support::PlacementNew{&st_edata.v.n}) EmbedDataNode(TypeId::kUInt8, 1, 4, (y & 3) + 1);
+      else if ((z & 3) == 1) d = new(Support::PlacementNew{&st_edata.v.n}) EmbedDataNode(TypeId::kUInt16, 2, 2, (y & 3) + 1);
+      else d = new(Support::PlacementNew{&st_edata.v.n}) EmbedDataNode(TypeId::kUInt32, 4, 1, (y & 3) + 1);
+      memcpy(d->data(), blob, 4); B = d; break;
+    }
   }
   const bool a_first = A_FIRST;
   BaseNode* n0 = a_first ? static_cast<BaseNode*>(A) : B; BaseNode* n1 = a_first ? B : static_cast<BaseNode*>(A);
@@ -144,7 +150,10 @@ template<uint32_t KIND, bool A_FIRST, uint32_t CNT> static void replay_two_nodes
     case 2: V_ASSERT(qb.kind == 5 && qb.a == x && qb.d == y, "embed-label node replayed as embed_label(label, size)"); break;
     case 3: V_ASSERT(qb.kind == 6 && qb.a == x && qb.b == y && qb.d == z, "label-delta node replayed as embed_label_delta(label, base, size)"); break;
     case 4: V_ASSERT(qb.kind == 8 && qb.p == (const void*)text, "comment node replayed as comment(text)"); break;
-    default: V_ASSERT(qb.kind == 4 && qb.a == uint32_t(TypeId::kUInt8) && qb.d == 4 && qb.e == (y & 3) + 1 && ((const uint8_t*)qb.p)[0] == 1 && ((const uint8_t*)qb.p)[3] == 4, "data node replayed as embed_data_array(type, data, count, repeat)"); break;
+    default: {
+      uint32_t k = z & 3; TypeId want_t = k == 0 ? TypeId::kUInt8 : k == 1 ? TypeId::kUInt16 : TypeId::kUInt32; uint64_t want_n = k == 0 ? 4 : k == 1 ? 2 : 1;
+      V_ASSERT(qb.kind == 4 && qb.a == uint32_t(want_t) && qb.d == want_n && qb.e == (y & 3) + 1 && ((const uint8_t*)qb.p)[0] == 1 && ((const uint8_t*)qb.p)[3] == 4, "data node replayed as embed_data_array(type, data, count, repeat)"); break;
+    }
   }
   verif_observe(kind); verif_observe(cnt);
   V_WITNESS("replay");
